@@ -203,7 +203,7 @@ def same_set(x, y) -> bool:
 # bound assignments for the exhaustive layers: different *shapes* of versions,
 # each list strictly ascending in PEP 440 order
 ASSIGNMENTS = [
-    ["1.0.dev0", "1.0", "1.0.post1", "2!0", "3!1"],
+    ["1.0.dev0", "1.0", "1.0.post0", "2!0", "3!1"],  # post0: a post-release whose number is falsy
     ["1", "1.0.0.1", "1.1", "2", "10"],
     ["0.9a1", "0.9", "1.0rc1.post1", "1.0", "1.0.post0.dev1"],
     ["3.7", "3.7.5", "3.8", "3.10", "4"],
